@@ -125,3 +125,16 @@ package pattern
 //@   modifies everything()
 //@   exits any
 //@   assert_before_call addTrackback: $siMin == old(m.si) && m.si == old(m.si) + 1
+
+// What the string library relies on (C15, gsub/gmatch stepping): a match starts
+// at or after the position asked for and lies inside the subject.  Assumed here
+// (the matcher's search loop is not under contract).
+//@ func (*Pattern).MatchFromStart
+//@   trusted
+//@   modifies nothing
+//@   ensures len(result0) > 0 ==> init <= result0[0].start && result0[0].start <= result0[0].end && result0[0].end <= len(s)
+
+//@ func (*Pattern).Match
+//@   trusted
+//@   modifies nothing
+//@   ensures len(result0) > 0 ==> init <= result0[0].start && result0[0].start <= result0[0].end && result0[0].end <= len(s)
